@@ -39,7 +39,7 @@ func TestC11(t *testing.T) {
 	}
 	prof := luagen.General
 	prof.Name, prof.Errors, prof.Close, prof.Coroutines, prof.Meta = "errors", 30, 6, 5, 6
-	progcheck.RunRandom(rec, "C11/programs", prof, rec.Pick(400, 10000), rec.Pick(2, 3), harness.Opts{}, func(res luaref.Result) bool {
+	progcheck.RunRandom(rec, "C11/programs", prof, rec.Pick(400, 4500), rec.Pick(2, 3), harness.Opts{}, func(res luaref.Result) bool {
 		caught := res.Feat["pcall-caught"] + res.Feat["xpcall-caught"] + res.Feat["coroutine-error-to-resumer"]
 		if caught > 0 {
 			rec.Class("random:error-caught")
